@@ -12,7 +12,7 @@ from mc.ref import trace as rtrace, hexdump as rhex
 PROPERTY = 'C15'
 LEVEL = 'exploration'
 ENGINE = 'E1'
-TECHNIQUE = ('bounded-exhaustive enumeration of trace buffers: all entry sequences of length <= 2 (thorough 3) over a 28-shape '
+TECHNIQUE = ('bounded-exhaustive enumeration of trace buffers: all entry sequences of length <= 2 (thorough 3) over a 31-shape '
              'entry alphabet (data lengths around every alignment and the 1024 limit, tags, exact/partial/unknown hashes, bad '
              'trailers, missing pad) x 9 declared sizes x header variants, every truncation offset of 3 buffers, every input '
              'length 0..31, every string of both shipped string files with exact and partial hash; real parse_trace_data vs. an '
@@ -23,7 +23,7 @@ LEVEL_TEXT = ('Every buffer in the product is decoded by the real code and by a 
               'declared size reached) to occur before, between and after good entries.')
 LEVEL_NOTE = 'component names with embedded NUL+blank or non-ASCII bytes, and string-file lines beyond the shipped syntax, are not constrained'
 RULE = ('buffer = header variant x declared size in {0,31,32,exact,mid-entry,entry boundary,larger than data,2^32-1,one byte '
-        'short} x entry sequence (all of length 0..2 quick / 0..3 thorough over 28 shapes); truncation: every offset of 3 '
+        'short} x entry sequence (all of length 0..2 quick / 0..3 thorough over 31 shapes); truncation: every offset of 3 '
         'three-entry buffers; no-header inputs of every length 0..31; shipped: each of the 709/679 strings with exact hash and '
         'hash+100000 and specifier-count arguments. Non-trivial: at least one entry expected; distinct by buffer bytes.')
 ASSUMPTIONS = ['the literal text of header/entry/warning lines is pinned by the repository\'s own tests']
@@ -86,6 +86,10 @@ SHAPES = [
     ('t2pct', dict(length=2, h=1200012)),
     ('t3binpct', dict(length=3, tag=rtrace.TAG_BIN, h=1100011)),
     ('t4pctpart', dict(length=4, h=1200012 + 300000)),
+    # every fixed field at the top of its unsigned range (time stamp, sequence, hash, source line are stored unsigned)
+    ('t4linemax', dict(length=4, line=0xFFFFFFFF, ts=0xFFFF, seq=0xFFFF)),
+    ('t4line31', dict(length=4, h=200002 + 0, line=0x80000001, seq=0x8000)),
+    ('t4hashmax', dict(length=4, h=0xFFFFFFF0, line=0x7FFFFFFF)),
 ]
 
 
